@@ -17,6 +17,7 @@ type Frame struct {
 	Env    map[ssa.Value]Val
 	Names  map[string]Val        // source-level names -> current value (or pointer for address-taken vars)
 	Addr   map[string]bool       // Names entry is an address
+	ZeroNamed map[string]bool    // Names entry comes from a zero-constant DebugRef
 	Loops  map[*ssa.BasicBlock]*loopRec
 	Parent *Frame
 }
@@ -43,6 +44,12 @@ func (f *Frame) clone() *Frame {
 	}
 	for k, v := range f.Loops {
 		n.Loops[k] = v
+	}
+	if f.ZeroNamed != nil {
+		n.ZeroNamed = map[string]bool{}
+		for k, v := range f.ZeroNamed {
+			n.ZeroNamed[k] = v
+		}
 	}
 	return n
 }
@@ -271,6 +278,21 @@ func (ex *Exec) Zero(st *State, t types.Type) Val {
 	return Opaque{Typ: t, Why: "type not modelled"}
 }
 
+// constMap is the all-zero map value array (see constArr for why it is not always an SMT
+// constant array).
+func (ex *Exec) constMap(ks, vs string) string {
+	if vs == "Int" || vs == "Bool" {
+		return "((as const (Array " + ks + " " + vs + ")) " + zeroTerm(vs) + ")"
+	}
+	name := "zeromap_" + ks + "_" + vs
+	if !ex.Ctx.Has(name) {
+		ex.Ctx.Declare(name, nil, "(Array "+ks+" "+vs+")")
+		ex.Ctx.Define(name, "")
+		ex.Ctx.AddAxiom("(forall ((k " + ks + ")) (! (= (select " + name + " k) " + zeroTerm(vs) + ") :pattern ((select " + name + " k))))")
+	}
+	return name
+}
+
 // constArr is the all-zero array. For Int/Bool elements it is an SMT constant array; for
 // uninterpreted element sorts (Str, Ref) cvc5 wants a value there, so a named array with a
 // quantified definition is used instead.
@@ -424,7 +446,7 @@ func (ex *Exec) writeLeaf(st *State, root types.Type, ref string, names string, 
 		ks, vs := mustSort(u.Key()), mustSort(u.Elem())
 		var mc MapContent
 		if mv.Obj == nil {
-			mc = MapContent{Val: "((as const (Array " + ks + " " + vs + ")) " + zeroTerm(vs) + ")", Dom: "((as const (Array " + ks + " Bool)) false)"}
+			mc = MapContent{Val: ex.constMap(ks, vs), Dom: "((as const (Array " + ks + " Bool)) false)"}
 		} else {
 			mc = st.Mem[mv.Obj].(MapContent)
 		}
